@@ -257,36 +257,152 @@ def quote_state(ctx, s, parser):
     return n
 
 
+def _is_input_byte(v):
+    """v is the byte of the input at the cursor (by value, or a reference to it)"""
+    while v[0] in ("cast",):
+        v = v[-1]
+    if v[0] in ("byref", "ref"):
+        v = v[1]
+    if v[0] == "elem" and v[1][0] == "param":
+        return True
+    if v[0] == "index" and v[1][0] == "deref" and v[1][1][0] == "param":
+        return True
+    return False
+
+
+def eval_with_byte(v, c):
+    """value of a branch condition when the input byte at the cursor is c: int/bool, or None when it depends on
+    anything else"""
+    if not isinstance(v, tuple) or not v:
+        return None
+    if _is_input_byte(v):
+        return c
+    t = v[0]
+    if t == "const":
+        return v[1]
+    if t == "cast":
+        return eval_with_byte(v[-1], c)
+    if t == "not":
+        x = eval_with_byte(v[1], c)
+        return None if x is None else (not x)
+    if t == "bin":
+        x, y = eval_with_byte(v[2], c), eval_with_byte(v[3], c)
+        if x is None or y is None:
+            return None
+        op = v[1]
+        try:
+            return {"Eq": x == y, "Ne": x != y, "Lt": x < y, "Le": x <= y, "Gt": x > y, "Ge": x >= y,
+                    "BitAnd": int(x) & int(y), "BitOr": int(x) | int(y), "BitXor": int(x) ^ int(y),
+                    "Add": int(x) + int(y), "Sub": int(x) - int(y)}.get(op)
+        except Exception:
+            return None
+    if t == "call":
+        name = v[1].rsplit("::", 1)[-1]
+        args = v[2]
+        if name == "contains" and len(args) == 2 and _is_input_byte(args[1]):
+            bs = find_values(args[0], lambda x: x[0] == "bytes")
+            if bs:
+                return c in bs[0][1]
+            rng = find_values(args[0], lambda x: (x[0] == "call" and "range" in x[1] and x[1].endswith("::new") and len(x[2]) == 2) or
+                              (x[0] == "agg" and "Range" in str(x[1]) and len(x[2]) >= 2))
+            if rng:
+                lo, hi = eval_with_byte(rng[0][2][0], c), eval_with_byte(rng[0][2][1], c)
+                if lo is not None and hi is not None:
+                    incl = "RangeInclusive" in str(rng[0][1]) or "{impl#7}" in str(rng[0][1])
+                    return lo <= c <= hi if incl else lo <= c < hi
+            return None
+        if len(args) == 1 and _is_input_byte(args[0]):
+            table = {"is_ascii_digit": 48 <= c <= 57, "is_ascii_alphabetic": (65 <= c <= 90) or (97 <= c <= 122),
+                     "is_ascii_uppercase": 65 <= c <= 90, "is_ascii_lowercase": 97 <= c <= 122,
+                     "is_ascii_hexdigit": (48 <= c <= 57) or (65 <= c <= 70) or (97 <= c <= 102),
+                     "is_ascii_whitespace": c in (9, 10, 12, 13, 32), "is_ascii_alphanumeric": (48 <= c <= 57) or (65 <= c <= 90) or (97 <= c <= 122)}
+            if name in table:
+                return table[name]
+        if name in ("eq", "ne", "lt", "le", "gt", "ge") and len(args) == 2:
+            x, y = eval_with_byte(args[0], c), eval_with_byte(args[1], c)
+            if x is None or y is None:
+                return None
+            return {"eq": x == y, "ne": x != y, "lt": x < y, "le": x <= y, "gt": x > y, "ge": x >= y}[name]
+    return None
+
+
+def first_byte_dispatch(ctx, s, fn, c):
+    """names of the crate's functions that can be the first one called when the input byte at the cursor is c
+    (branches that depend on anything else are all followed)"""
+    an = ctx.E.an(fn)
+    cfg = an.cfg
+    reached = set()
+    seen = set()
+    stack = [cfg.entry]
+    while stack:
+        x = stack.pop()
+        if x in seen:
+            continue
+        seen.add(x)
+        if x >= cfg.nblocks:
+            stack.append(cfg.edges[x - cfg.nblocks].dst)
+            continue
+        info = an.term.get(x)
+        if info is None:
+            continue
+        if info["kind"] == "call":
+            callee = info["callee"] or ""
+            if callee in ctx.F.fns:
+                reached.add(s.nice(callee).rsplit("::", 1)[-1])
+                continue
+        if info["kind"] == "switch":
+            val = eval_with_byte(info["discr"], c)
+            if val is not None:
+                val = int(val)
+                took = False
+                for e in cfg.out_edges[x]:
+                    if e.label[0] == "switch" and e.label[1] == val:
+                        stack.append(e.node)
+                        took = True
+                if not took:
+                    for e in cfg.out_edges[x]:
+                        if e.label[0] == "otherwise" and val not in e.label[1]:
+                            stack.append(e.node)
+                continue
+        for e in cfg.out_edges[x]:
+            stack.append(e.node)
+    return reached
+
+
+SKIPPER_OF = {ord('"'): "burn_string", ord("["): "burn_array", ord("{"): "burn_object", ord("t"): "burn_true",
+              ord("f"): "burn_false", ord("n"): "burn_null", ord("-"): "burn_number"}
+SKIPPER_OF.update({c: "burn_number" for c in b"0123456789"})
+
+
 def skipper_first_set(ctx, s):
-    """S-COVER(b): burn_value dispatches on exactly FIRST(JSON value)"""
+    """S-COVER(b): burn_value dispatches on exactly FIRST(JSON value), each first byte to the skipper of its kind.
+    Decided by evaluating the dispatcher's branch conditions for each of the 256 byte values (whatever their syntactic
+    form: match arms, range patterns, contains(), comparisons)."""
     cands = [f for f in ctx.F.fns.values() if f.path.startswith(JP + "burn_value")]
-    fn = None
-    best = set()
-    for f in cands:
-        an = ctx.E.an(f)
-        got = set()
-        for b, info in an.term.items():
-            if info["kind"] == "switch" and info["dty"] == "u8" and info["discr"][0] == "elem":
-                for e in an.cfg.out_edges[b]:
-                    if e.label[0] == "switch":
-                        got.add(e.label[1])
-        for b, info in an.calls():
-            if (info["callee"] or "").endswith("::contains") and "slice" in (info["callee"] or ""):
-                bs = find_values(info["args"][0], lambda x: x[0] == "bytes")
-                if bs:
-                    got |= set(bs[0][1])
-        if len(got) > len(best):
-            best, fn = got, f
     from ..main import AnalysisError
+    fn = None
+    for f in cands:
+        r = first_byte_dispatch(ctx, s, f, ord("t"))
+        if any(x.startswith("burn_") and x != "burn_value_at" for x in r) and (fn is None or len(f.blocks) > len(fn.blocks)):
+            fn = f
     if fn is None:
         raise AnalysisError("value skipper dispatch not found")
     ctx.functions.add(fn.path)
-    ok = best == JSON_FIRST
+    got = {}
+    for c in range(256):
+        r = {x for x in first_byte_dispatch(ctx, s, fn, c) if x.startswith("burn_")}
+        if r:
+            got[c] = r
+    best = set(got)
+    wrong = sorted(chr(c) for c in best & JSON_FIRST
+                   if not (len(got[c]) == 1 and next(iter(got[c])).startswith(SKIPPER_OF[c])))
+    ok = best == JSON_FIRST and not wrong
     miss = sorted(chr(c) for c in JSON_FIRST - best)
     extra = sorted(chr(c) for c in best - JSON_FIRST)
     s.add("S-COVER", fn, "value-first-set", "burn_value", fn.sp, PROVED if ok else VIOLATION,
-          "dispatches on exactly the 17 first bytes of a JSON value" if ok else
-          "the value skipper misses %s / accepts extra %s: unknown members with such values are rejected/misparsed" % (miss, extra))
+          "dispatches on exactly the 17 first bytes of a JSON value, each to the skipper of its kind" if ok else
+          "the value skipper misses %s / accepts extra %s / sends %s to the wrong skipper: unknown members with such values are "
+          "rejected/misparsed" % (miss, extra, wrong))
 
 
 def fallthrough_skips_member(ctx, s, parser):
